@@ -16,15 +16,35 @@ namespace C11
     goroutine was on when `LoadFilter` was entered: `prctl(PR_SET_NO_NEW_PRIVS, 1, 0, 0, 0)`, then
     `seccomp(SET_MODE_FILTER, flags, prog)` — whatever the schedule oracle says. -/
 theorem nnp_before_install_same_thread (U : Unsupported) (filter : Filter) (p : Prog)
-    (hp : filter.policy = .prog p) (hn : filter.noNewPrivs = true) (w : World) :
+    (hp : filter.policy = .prog p) (hn : filter.noNewPrivs = true) (w : World) (ha : w.nnpAvailable = true) :
     (Gen.loadFilter U filter w).2.log =
       .seccomp w.cur 1 filter.flag (mkFprog (.prog p)) :: .prctl w.cur 38 1 0 0 0 :: w.log := by
-  obtain ⟨msg, _, heq⟩ := gen_loadFilter_prog U filter p hp w
+  obtain ⟨msg, _, heq⟩ := gen_loadFilter_prog U filter p hp w (fun hf => by have := hf.2; rw [ha] at this; cases this)
   rw [heq]
   simp only
   rw [atReturn_log, (gen_seccomp_log U _ _ _).1, preInstall_sched_nnp filter w hn, preInstall_cur,
-    preInstall_nnp filter w hn]
+    preInstall_nnp filter w hn ha]
   rfl
+
+/-- **Never installed without the bit.**  If NoNewPrivs is requested and the kernel refuses to set it
+    (`prctl` answers EINVAL), `LoadFilter` returns that error and makes no seccomp call: the log grows
+    by the `prctl` alone and no thread changes.  Together with the theorem above: whenever NoNewPrivs is
+    requested, a seccomp call is only ever made after a successful `prctl` on the same thread. -/
+theorem no_install_without_bit (U : Unsupported) (filter : Filter) (p : Prog)
+    (hp : filter.policy = .prog p) (hn : filter.noNewPrivs = true) (w : World) (ha : w.nnpAvailable = false) :
+    (Gen.loadFilter U filter w).1 ≠ GoErr.nil ∧
+    (Gen.loadFilter U filter w).2.log = .prctl w.cur 38 1 0 0 0 :: w.log ∧
+    (Gen.loadFilter U filter w).2.thr = w.thr := by
+  obtain ⟨h1, h2, h3, _⟩ := C09.nnp_refusal_is_error U filter p hp w hn ha
+  refine ⟨fun h => ?_, h3, h2⟩
+  rw [h] at h1; simp [GoErr.cls] at h1
+
+/-- the bit is on the installing thread at the moment of the seccomp call (kernel that knows the option) -/
+theorem bit_set_at_install (filter : Filter) (w : World) (hn : filter.noNewPrivs = true) (ha : w.nnpAvailable = true) :
+    ((preInstall filter w).thr (C09.callThread filter w)).nnp = true := by
+  unfold C09.callThread
+  rw [preInstall_sched_nnp filter w hn, preInstall_cur, preInstall_nnp filter w hn ha]
+  simp
 
 /-- the option and argument words are those of the UAPI -/
 theorem prctl_words : PR_SET_NO_NEW_PRIVS = 38 ∧ SECCOMP_SET_MODE_FILTER = 1 := ⟨rfl, rfl⟩
@@ -36,13 +56,13 @@ theorem prctl_words : PR_SET_NO_NEW_PRIVS = 38 ∧ SECCOMP_SET_MODE_FILTER = 1 :
     caller's. -/
 theorem unprivileged_can_load (U : Unsupported) (filter : Filter) (p : Prog)
     (hp : filter.policy = .prog p) (hn : filter.noNewPrivs = true) (w : World)
-    (havail : w.seccompAvailable = true)
+    (havail : w.seccompAvailable = true) (ha : w.nnpAvailable = true)
     (hok : p.ok = true ∧ p.len % 65536 ≠ 0 ∧ p.len % 65536 ≤ BPF_MAXINSNS)
     (hflags : filter.flag &&& knownFlags = filter.flag)
     (hsync : filter.flag &&& FLAG_TSYNC ≠ 0 → ∀ t ∈ w.live, t ≠ w.cur →
       (w.thr t).filters.isSuffixOf (w.thr w.cur).filters = true) :
     (Gen.loadFilter U filter w).1 = GoErr.nil := by
-  obtain ⟨msg, _, heq⟩ := gen_loadFilter_prog U filter p hp w
+  obtain ⟨msg, _, heq⟩ := gen_loadFilter_prog U filter p hp w (fun hf => by have := hf.2; rw [ha] at this; cases this)
   rw [heq]
   simp only
   have hcur : (schedStep (preInstall filter w)).cur = w.cur := by
@@ -51,7 +71,7 @@ theorem unprivileged_can_load (U : Unsupported) (filter : Filter) (p : Prog)
     simp only [mkFprog]
     apply gen_seccomp_ok (by rw [preInstall_avail]; exact havail) hflags (by simpa using hok)
     · left
-      rw [hcur, schedStep_thr, preInstall_nnp filter w hn]
+      rw [hcur, schedStep_thr, preInstall_nnp filter w hn ha]
       simp
     · intro hts t ht htc
       rw [hcur] at htc ⊢
@@ -69,7 +89,7 @@ theorem no_prctl_if_not_requested (U : Unsupported) (filter : Filter) (hn : filt
   | encodeFails => left; rw [(gen_loadFilter_noprog U filter (by simp [hpol]) w).2]
   | prog p =>
     right
-    obtain ⟨msg, _, heq⟩ := gen_loadFilter_prog U filter p hpol w
+    obtain ⟨msg, _, heq⟩ := gen_loadFilter_prog U filter p hpol w (fun hf => by have := hf.1; rw [hn] at this; cases this)
     rw [heq]
     simp only
     rw [atReturn_log, (gen_seccomp_log U _ _ _).1, preInstall_off filter w hn]
@@ -84,7 +104,7 @@ theorem nnp_untouched_if_not_requested (U : Unsupported) (filter : Filter) (hn :
   | assembleFails => left; rw [(gen_loadFilter_noprog U filter (by simp [hpol]) w).2] at h; exact h
   | encodeFails => left; rw [(gen_loadFilter_noprog U filter (by simp [hpol]) w).2] at h; exact h
   | prog p =>
-    obtain ⟨msg, _, heq⟩ := gen_loadFilter_prog U filter p hpol w
+    obtain ⟨msg, _, heq⟩ := gen_loadFilter_prog U filter p hpol w (fun hf => by have := hf.1; rw [hn] at this; cases this)
     rw [heq] at h
     simp only at h
     rw [atReturn_thr, gen_seccomp_world, preInstall_off filter w hn] at h
@@ -150,5 +170,15 @@ theorem migration_breaks_unlocked_load :
 theorem migration_harmless_with_lock :
     (Gen.loadFilter C09.noU { noNewPrivs := true, flag := 0, policy := .prog C09.goodProg } migrating).1
       = GoErr.nil := by decide
+
+/-- non-vacuity of the fault case: a privileged process (the seccomp call itself would succeed) on a
+    kernel that refuses the option — an error, no seccomp call, no filter, no bit -/
+def noNnpKernel : World :=
+  { thr := fun _ => {}, live := [1, 2], cur := 1, privileged := true, nnpAvailable := false }
+
+theorem nnp_fault_example :
+    let r := Gen.loadFilter C09.noU { noNewPrivs := true, flag := 0, policy := .prog C09.goodProg } noNnpKernel
+    r.1.cls = .errno EINVAL ∧ r.2.log = [.prctl 1 38 1 0 0 0] ∧ (r.2.thr 1).filters = [] ∧ (r.2.thr 1).nnp = false := by
+  decide
 
 end C11
